@@ -397,3 +397,6 @@ def run(tier, seed):
     shards.sort(key=lambda s: -(s[1] if len(s) > 1 and isinstance(s[1], int) else 0))
     col = run_shards(_shard, shards)
     return col, {"exhaustive": True, "boxes": BOXES}
+
+
+RULE += (' FullFactorGenerator on seven parameter sets that declare a precision (narrow ranges, bounds off the grid), with and without centre.')
